@@ -2,7 +2,10 @@
 flags (Flocq binary32/binary64 model) and exact-rational correspondence of the mute."""
 import json
 import math
+import re
+import shutil
 import warnings
+from pathlib import Path
 from fractions import Fraction
 
 import numpy as np
@@ -65,7 +68,10 @@ MV_KINDS = ("pyfloat", "pyint", "f32scalar", "f32array", "f64array", "pylist", "
 class Case:
     """data: ndarray [nc, ns] float32/float64; mv: value as passed to saturation()."""
 
-    def __init__(self, data, mv_kind, mv_vals, vps, fs, prop, M, origin):
+    reader = False
+
+    def __init__(self, data, mv_kind, mv_vals, vps, fs, prop, M, origin, calls=1):
+        self.calls = calls          # > 1: the SAME max_voltage object is passed to that many consecutive calls
         self.data = np.ascontiguousarray(data)
         self.mv_kind, self.mv_vals = mv_kind, [float(v) for v in mv_vals]
         self.vps, self.fs, self.prop, self.M, self.origin = float(vps), fs, float(prop), int(M), origin
@@ -96,7 +102,7 @@ class Case:
         return {"dtype": str(self.data.dtype), "shape": list(self.data.shape), "data_hex": hexlist(self.data),
                 "mv_kind": self.mv_kind, "mv_hex": [float(v).hex() for v in self.mv_vals],
                 "v_per_sec": self.vps.hex(), "fs": self.fs, "proportion": self.prop.hex(),
-                "mute_window_samples": self.M, "origin": self.origin}
+                "mute_window_samples": self.M, "origin": self.origin, "calls": self.calls}
 
     @staticmethod
     def from_description(d):
@@ -104,7 +110,13 @@ class Case:
         data = data.reshape(d["shape"]).astype(np.dtype(d["dtype"]))
         return Case(data, d["mv_kind"], [float.fromhex(h) for h in d["mv_hex"]],
                     float.fromhex(d["v_per_sec"]), d["fs"], float.fromhex(d["proportion"]),
-                    d["mute_window_samples"], d.get("origin", "replay"))
+                    d["mute_window_samples"], d.get("origin", "replay"), calls=d.get("calls", 1))
+
+    def n_exact(self, out):
+        """length of the part of the flat output that is compared exactly (header + flags)"""
+        return 2 + self.data.shape[1]
+
+    s_index = 12
 
     def tags(self, clause):
         return {"clause": clause, "mute_window_parity": "even" if self.M % 2 == 0 else "odd"}
@@ -136,16 +148,33 @@ def enc_inp(c):
 
 
 def impl_observe(c):
-    """Run the real function; returns ("ok", flags, mute) or ("raise", exception)."""
+    """Run the real function; returns ("ok", flags, mute, side) or ("raise", exception).
+    With c.calls > 1 the same max_voltage object is handed to consecutive calls (a batch loop re-using
+    its range array) and the LAST call is the observation; side lists violated side conditions
+    (the caller's range array / data must not be modified)."""
     from ibldsp.voltage import saturation
+    side = []
     with warnings.catch_warnings():
         warnings.simplefilter("ignore")
         try:
-            fl, mu = saturation(c.data.copy(), c.mv_arg(), v_per_sec=c.vps, fs=c.fs, proportion=c.prop,
-                                mute_window_samples=c.M)
+            mv = c.mv_arg()
+            keep = np.array(mv, copy=True) if isinstance(mv, np.ndarray) else None
+            for _ in range(c.calls):
+                data = c.data.copy()
+                fl, mu = saturation(data, mv, v_per_sec=c.vps, fs=c.fs, proportion=c.prop,
+                                    mute_window_samples=c.M)
+                if not np.array_equal(data, c.data):
+                    side.append(("caller_data_modified", "saturation modified the caller's data array"))
+            if keep is not None and not (keep.shape == mv.shape and np.array_equal(keep, mv)):
+                side.append(("caller_range_modified", "saturation modified the caller's max_voltage array "
+                             "(%r -> %r)" % (keep.ravel()[:3].tolist(), np.asarray(mv).ravel()[:3].tolist())))
         except ValueError as e:
             return ("raise", e)
-    return ("ok", np.asarray(fl), np.asarray(mu))
+        except Exception as e:          # the reader path: any exception is an observation, not a harness crash
+            if not c.reader:
+                raise
+            return ("raise", e)
+    return ("ok", np.asarray(fl), np.asarray(mu), side)
 
 
 def enc_out(c, obs):
@@ -204,6 +233,14 @@ def oracle(c, obs):
     if wrong:
         bad.append(("flags_rule", "flag at sample %d is %s, the proportion rule gives %s"
                     % (wrong[0], bool(fl[wrong[0]]), exp[wrong[0]])))
+    return bad + list(obs[3]) + oracle_mute(c, obs)
+
+
+def oracle_mute(c, obs):
+    """the mute clauses of the property, on the implementation's (flags, mute)"""
+    bad = []
+    fl, mu = obs[1], obs[2]
+    ns = len(fl)
     M = c.M
     if not bool(np.all((mu >= 0) & (mu <= 1))):
         bad.append(("mute_range", "mute leaves [0,1]: min %r max %r" % (float(mu.min()), float(mu.max()))))
@@ -475,6 +512,250 @@ def gen_tiny(rng, M):
     return Case(data, kind, mvv, vps, fs, p, M, "tiny")
 
 
+# --------------------------------------------------------------------------
+# third anchor: max_voltage = spikeglx.Reader.range_volts[:nc - nsync]
+# --------------------------------------------------------------------------
+FIXTURES = {
+    "np1_3a_ap": ("sample3A_g0_t0.imec.ap.meta", "c16_g0_t0.imec.ap.meta"),
+    "np1_3b_ap": ("sample3B_g0_t0.imec1.ap.meta", "c16_g0_t0.imec1.ap.meta"),
+    "np1_3b_lf": ("sample3B_g0_t0.imec1.lf.meta", "c16_g0_t0.imec1.lf.meta"),
+    "np21_ap": ("sampleNP2.1_g0_t0.imec.ap.meta", "c16_g0_t0.imec0.ap.meta"),
+    "np24_ap": ("sampleNP2.4_4shanks_g0_t0.imec.ap.meta", "c16_g0_t0.imec0.ap.meta"),
+    "ultra_ap": ("sampleNPultra_g0_t0.imec0.ap.meta", "c16_g0_t0.imec0.ap.meta"),
+    "nidq": ("sample3B_g0_t0.nidq.meta", "c16_g0_t0.nidq.meta"),
+}
+NP1_GAINS = [50, 125, 250, 500, 1000, 1500, 2000, 3000]
+
+
+def fixture_text(kind):
+    f = Path(common.REPO) / "src" / "tests" / "fixtures" / FIXTURES[kind][0]
+    return f.read_bytes().decode("utf-8")
+
+
+def synth_meta(rng, kind):
+    """A fixture .meta with harness-chosen IMRO gains / range / maxint.  Returns (text, per-channel
+    TRUE full scale as exact Fractions for the voltage channels of the stream: range / gain)."""
+    text = fixture_text(kind)
+    rmax = rng.choice(["0.6", "0.6", "1.2", "0.5", "0.62"])
+    if kind == "nidq":
+        mn, ma = rng.choice([(200, 1), (100, 2), (1, 1)])
+        text = re.sub(r"niMNGain=[^\r\n]*", "niMNGain=%d" % mn, text)
+        text = re.sub(r"niMAGain=[^\r\n]*", "niMAGain=%d" % ma, text)
+        text = re.sub(r"snsMnMaXaDw=[^\r\n]*", "snsMnMaXaDw=2,3,1,1", text)
+        text = re.sub(r"nSavedChans=[^\r\n]*", "nSavedChans=7", text)
+        text = re.sub(r"niAiRangeMax=[^\r\n]*", "niAiRangeMax=5", text)
+        fs = [Fraction(5, mn)] * 2 + [Fraction(5, ma)] * 3 + [Fraction(5)]
+        return text, fs
+    text = re.sub(r"imAiRangeMax=[^\r\n]*", "imAiRangeMax=" + rmax, text)
+    r = Fraction(rmax)
+    if kind in ("np21_ap", "np24_ap"):
+        mi = rng.choice(["8192", "8192", "2048"])
+        text = re.sub(r"imMaxInt=[^\r\n]*", "imMaxInt=" + mi, text)
+        return text, [r / 80] * 384
+    if kind == "ultra_ap" and rng.random() < 0.5:
+        text = re.sub(r"imMaxInt=[^\r\n]*", "imMaxInt=512", text)
+    # non-uniform gains: blocks, alternating, random from the legal set, only channel 0 different, uniform
+    layout = rng.choice(["halves", "thirds", "alternate", "random2", "random", "first_differs", "uniform"])
+    g2 = rng.sample(NP1_GAINS, 3)
+
+    def gain_pair(ch):
+        if layout == "halves":
+            a = g2[0] if ch < 192 else g2[1]
+        elif layout == "thirds":
+            a = g2[min(2, ch // 128)]
+        elif layout == "alternate":
+            a = g2[ch % 2]
+        elif layout == "random2":
+            a = g2[gp_rand[ch] % 2]
+        elif layout == "random":
+            a = NP1_GAINS[gp_rand[ch] % len(NP1_GAINS)]
+        elif layout == "first_differs":
+            a = g2[0] if ch == 0 else g2[1]
+        else:
+            a = g2[0]
+        return a, NP1_GAINS[(NP1_GAINS.index(a) + 3) % len(NP1_GAINS)]
+    gp_rand = [rng.randrange(1 << 16) for _ in range(384)]
+    line = re.search(r"~imroTbl=([^\r\n]*)", text).group(1)
+    header = line[:line.index(")") + 1]
+    entries = re.findall(r"\(([0-9 ]+)\)", line[len(header):])
+    assert len(entries) == 384, len(entries)
+    new, fs = [], []
+    want_lf = kind.endswith("_lf")
+    for e in entries:
+        f = e.split(" ")
+        a, l = gain_pair(int(f[0]))
+        f[3], f[4] = str(a), str(l)
+        new.append("(" + " ".join(f) + ")")
+        fs.append(r / (l if want_lf else a))
+    text = text.replace("~imroTbl=" + line, "~imroTbl=" + header + "".join(new))
+    return text, fs
+
+
+class ReaderCase(Case):
+    """saturation(data, max_voltage=Reader(meta).range_volts[:nc - nsync], fs=Reader.fs) as
+    decompress_destripe_cbin calls it; the .meta text is harness-synthesised."""
+    reader = True
+    s_index = 10
+
+    def __init__(self, kind, text, true_fs, data, vps, prop, M, origin):
+        Case.__init__(self, data, "reader", [], vps, 0.0, prop, M, origin)
+        self.kind, self.text, self.true_fs = kind, text, true_fs
+        self.rv = None
+
+    def mv_arg(self):
+        import logging
+        import spikeglx
+        logging.getLogger("ibllib").setLevel(logging.ERROR)
+        d = common.tmpdir("C16_meta_")
+        try:
+            f = d / FIXTURES[self.kind][1]
+            f.write_bytes(self.text.encode("utf-8"))
+            sr = spikeglx.Reader(f)
+            self.fs = sr.fs
+            ncv = sr.nc - sr.nsync
+            rv = np.array(sr.range_volts)
+            self.rv = rv[:ncv]
+        finally:
+            shutil.rmtree(d, ignore_errors=True)
+        self.mv_vals = [float(v) for v in self.rv]
+        return self.rv
+
+    def mv_dtype(self):
+        return self.rv.dtype.type if self.rv is not None else np.float32
+
+    def mv_array(self):
+        return np.array(self.rv)
+
+    def n_exact(self, out):
+        return len(out) if out[0] != 1 else 1 + 2 + 2 * out[1] + 1 + self.data.shape[1]
+
+    def describe(self):
+        d = Case.describe(self)
+        d.update({"reader_kind": self.kind, "meta_text": self.text,
+                  "true_full_scale": [str(f) for f in self.true_fs]})
+        return d
+
+    def tags(self, clause):
+        t = Case.tags(self, clause)
+        t["reader_kind"] = self.kind
+        return t
+
+
+def canon_float(x, prec, emin):
+    """(mantissa, exponent) as Flocq stores a finite float of the format"""
+    x = float(x)
+    if x == 0.0:
+        return [0, 0]
+    if math.isinf(x):
+        return [1 if x > 0 else -1, INF_E]
+    _, E = math.frexp(x)
+    e = max(E - prec, emin)
+    m = Fraction(x) / Fraction(2) ** e
+    assert m.denominator == 1
+    return [int(m), e]
+
+
+def enc_inp_reader(c):
+    ncv, ns = c.data.shape
+    fd = 0 if c.data.dtype == np.float32 else 1
+    _, wi, s = window_fixed(c.M)
+    out = [2, fd, ns] + list(fme(float(c.fs))) + list(fme(c.vps)) + list(fme(c.prop)) + [c.M, s] + wi
+    cps = [ord(ch) for ch in c.text]
+    out += [len(cps)] + cps
+    for v in c.data.ravel().tolist():
+        out += list(fme(v))
+    return out
+
+
+def enc_out_reader(c, obs):
+    if obs[0] == "raise":
+        return [0]
+    _, _, s = window_fixed(c.M)
+    fl, mu = obs[1], obs[2]
+    f32 = c.rv.dtype == np.float32
+    out = [1, len(c.rv), 0 if f32 else 1]
+    for v in c.rv:
+        out += canon_float(v, 24, -149) if f32 else canon_float(v, 53, -1074)
+    return out + [len(fl)] + [int(bool(b)) for b in fl] + [int(round(Fraction(float(v)) * (1 << s))) for v in mu]
+
+
+def oracle_reader(c, obs):
+    """Physical truth, exact rationals: full scale of channel c = imAiRangeMax / gain_c (harness-known
+    gains); flag j <=> more than proportion of the channels have |x| > 0.98 * full scale, or jump by
+    >= v_per_sec * fs into j+1.  The generator keeps every value at least 0.5 % away from each
+    boundary, far beyond float32 rounding (6e-8), so this exact rule must be met."""
+    if obs[0] == "raise":
+        return [("raises", "saturation raised %r with Reader.range_volts" % (obs[1],))]
+    bad = []
+    fl, mu = obs[1], obs[2]
+    ncv, ns = c.data.shape
+    if len(c.rv) != ncv or len(c.true_fs) != ncv:
+        return [("range_volts", "range_volts[:nc-nsync] has %d entries for %d voltage channels" % (len(c.rv), ncv))]
+    rel = [abs(Fraction(float(v)) / t - 1) for v, t in zip(c.rv, c.true_fs)]
+    worst = max(range(ncv), key=lambda i: rel[i])
+    if rel[worst] > Fraction(1, 10 ** 5):
+        bad.append(("range_volts", "Reader.range_volts[%d] = %r V, imAiRangeMax / gain = %r V"
+                    % (worst, float(c.rv[worst]), float(c.true_fs[worst]))))
+    p = Fraction(c.prop)
+    lim = Fraction(c.vps) * Fraction(float(c.fs))
+    X = [[Fraction(v) for v in row] for row in c.data.tolist()]
+    thr = [Fraction(98, 100) * t for t in c.true_fs]
+    exp = []
+    for j in range(ns):
+        cv = sum(1 for ch in range(ncv) if abs(X[ch][j]) > thr[ch])
+        f = Fraction(cv, ncv) > p
+        if j + 1 < ns:
+            cs = sum(1 for ch in range(ncv) if abs(X[ch][j + 1] - X[ch][j]) >= lim)
+            f = f or Fraction(cs, ncv) > p
+        exp.append(f)
+    wrong = [j for j in range(ns) if bool(fl[j]) != exp[j]]
+    if wrong:
+        bad.append(("flags_rule_reader", "with max_voltage = Reader.range_volts, flag at sample %d is %s; the rule "
+                    "with full scale imAiRangeMax/gain per channel gives %s" % (wrong[0], bool(fl[wrong[0]]), exp[wrong[0]])))
+    return bad + list(obs[3]) + oracle_mute(c, obs)
+
+
+def gen_reader(rng, kind, M):
+    text, true_fs = synth_meta(rng, kind)
+    ncv = len(true_fs)
+    ns = rng.randrange(6, 13)
+    dt = rng.choice([np.float32, np.float32, np.float64])
+    p = rng.choice([0.2, 0.2, 0.1, 0.25, 0.05])
+    slew_on = rng.random() < 0.4
+    vps = 1e-8 if slew_on else 1e3
+    fsf = np.array([float(f) for f in true_fs])
+    data = np.zeros((ncv, ns))
+    groups = sorted(set(true_fs))
+    nprng = np.random.default_rng(rng.randrange(1 << 32))
+    for j in range(ns):
+        g = rng.choice(groups)
+        members = np.array([t == g for t in true_fs])
+        # a level relative to the channel's OWN full scale, >= 0.5 % away from the 98 % boundary;
+        # the other channels follow at the same VOLTAGE (so they sit at another fraction of theirs)
+        level = rng.choice([0.0, 0.5, 0.90, 0.97, 0.972, 0.99, 1.0, 1.7, 3.5])
+        volt = level * float(g)
+        who = rng.choice(["group", "group", "all", "fraction"])
+        if who == "group":
+            sel = members
+        elif who == "all":
+            sel = np.ones(ncv, dtype=bool)
+        else:
+            sel = nprng.random(ncv) < rng.choice([p * 0.5, p * 1.5, 0.5])
+        col = np.where(sel, volt * nprng.choice([1.0, -1.0], size=ncv), 0.0)
+        # keep clear of every channel's own boundary
+        ratio = np.abs(col) / (0.98 * fsf)
+        col[(ratio > 0.994) & (ratio < 1.006)] *= 0.9
+        data[:, j] = col
+    if slew_on:     # keep every jump at least 2 % away from the slew limit v_per_sec * fs, else switch the rule off
+        fs_txt = float(re.search(r"(?:im|ni)SampRate=([0-9.]+)", text).group(1))
+        d = np.abs(np.diff(data, axis=1)) / (vps * fs_txt)
+        if np.any(np.abs(d - 1.0) < 0.02):
+            vps = 1e3
+    return ReaderCase(kind, text, true_fs, data.astype(dt), vps, p, M, "reader_" + kind)
+
+
+
+
 def gen_special(rng):
     """Infinities from overflowing differences, negative proportion (the appended 0 fires),
     shapes that broadcast oddly or not at all."""
@@ -517,6 +798,23 @@ def gen_cases(ctx):
             cases.append(g(rng, nc, ns, rng.choice([7, 3, 4, 5, 11])))
     for rep in range(250 * n):
         cases.append(gen_tiny(rng, rng.choice(windows)))
+    # batch loops re-using one float64 range array (and one list) over consecutive calls
+    for rep in range(24 * n):
+        g = (gen_voltage_lattice, gen_random)[rep % 2]
+        c = g(rng, rng.choice([2, 5, 8, 10, 20]), rng.choice([3, 8, 12]), rng.choice([7, 3, 5]))
+        c.mv_kind = rng.choice(["f64array", "f64array", "pylist", "f32array"])
+        if len(c.mv_vals) == 1:
+            c.mv_vals = c.mv_vals * c.data.shape[0]
+        if c.mv_kind == "f32array":
+            c.mv_vals = [float(np.float32(v)) for v in c.mv_vals]
+        c.calls = rng.choice([2, 3, 4])
+        c.origin = "shared_range_sequence"
+        cases.append(c)
+    # max_voltage taken from spikeglx.Reader.range_volts of synthesised .meta files
+    kinds = ["np1_3b_ap", "np1_3a_ap", "np1_3b_lf", "ultra_ap", "np21_ap", "np24_ap", "nidq"]
+    for rep in range(3 * n):
+        for kind in kinds + ["np1_3b_ap", "np1_3a_ap"]:
+            cases.append(gen_reader(rng, kind, rng.choice([7, 7, 3, 5, 9])))
     return cases
 
 
@@ -526,21 +824,21 @@ def compare_model(ctx, cases, inputs, outs, observations):
     model = common.Extracted(PROP).run_many(inputs, nproc=4)
     for i, c in enumerate(cases):
         m, o = model[i], outs[i]
-        ns = c.data.shape[1]
-        s = inputs[i][12]
+        s = inputs[i][c.s_index]
+        ne = c.n_exact(o)
         tol = 1 << (s - TOL_BITS)
         what = None
-        if len(m) != len(o) or m[:2 + ns] != o[:2 + ns]:
+        if len(m) != len(o) or m[:ne] != o[:ne]:
             k = next((j for j, (a, b) in enumerate(zip(m, o)) if a != b), min(len(m), len(o)))
-            what = "model and implementation differ at output position %d (header/flags; model %s, " \
-                   "implementation %s)" % (k, m[k:k + 4], o[k:k + 4])
+            what = "model and implementation differ at output position %d (header/%sflags; model %s, " \
+                   "implementation %s)" % (k, "range_volts/" if c.reader else "", m[k:k + 4], o[k:k + 4])
         elif repaired_even(c, observations[i]):
             outs[i] = m          # the kernel sample then only re-checks the flags of this case
         else:
-            k = next((j for j in range(2 + ns, len(m)) if abs(m[j] - o[j]) > tol), None)
+            k = next((j for j in range(ne, len(m)) if abs(m[j] - o[j]) > tol), None)
             if k is not None:
                 what = "model and implementation mute differ at sample %d (model %r, implementation %r)" % (
-                    k - 2 - ns, m[k] / (1 << s), o[k] / (1 << s))
+                    k - ne, m[k] / (1 << s), o[k] / (1 << s))
         if what:
             ctx.disagree(what, c.describe(), c.tags("correspondence"))
     idx = list(range(len(cases)))
@@ -570,8 +868,8 @@ def run(ctx):
     if EVEN_REPAIRED[0]:
         ctx.notes.append("even mute windows behave as repaired (F-C16-a no longer reproduces)")
     for c, obs in zip(cases, observations):
-        inputs.append(enc_inp(c))
-        outs.append(enc_out(c, obs))
+        inputs.append(enc_inp_reader(c) if c.reader else enc_inp(c))
+        outs.append(enc_out_reader(c, obs) if c.reader else enc_out(c, obs))
         nc, ns = c.data.shape
         for k, v in (("origin", c.origin), ("dtype", str(c.data.dtype)), ("mv_kind", c.mv_kind),
                      ("window", str(c.M))):
@@ -584,7 +882,7 @@ def run(ctx):
             continue
         if c.mv_kind == "oddbroadcast":     # one data row against k ranges: model only
             continue
-        bad = oracle(c, obs) + metamorphic(c, obs)
+        bad = oracle_reader(c, obs) if c.reader else oracle(c, obs) + metamorphic(c, obs)
         for clause, msg in bad:
             ctx.fail(msg, c.describe(), c.tags(clause))
         if obs[0] == "ok" and ns > 0:
@@ -601,11 +899,10 @@ def run(ctx):
                 nontrivial.add(hash((c.data.tobytes(), c.data.shape, tuple(c.mv_vals), c.mv_kind, c.vps, c.prop, c.M)))
     compare_model(ctx, cases, inputs, outs, observations)
     samples = []
-    for c, o in list(zip(cases, outs))[:: max(1, len(cases) // 6)]:
-        ns = c.data.shape[1]
+    for c, ob in list(zip(cases, observations))[:: max(1, len(cases) // 7)]:
         samples.append({"origin": c.origin, "dtype": str(c.data.dtype), "shape": list(c.data.shape),
-                        "mv_kind": c.mv_kind, "proportion": c.prop, "mute_window_samples": c.M,
-                        "flags": o[2:2 + ns][:16]})
+                        "mv_kind": c.mv_kind, "proportion": c.prop, "mute_window_samples": c.M, "calls": c.calls,
+                        "flags": [int(b) for b in ob[1][:16]] if ob[0] == "ok" else "raises"})
     return common.finish(
         ctx, TRUSTED,
         rule="voltage arrays built on a lattice: per sample the number of channels strictly above fl(0.98*range) "
@@ -630,20 +927,30 @@ def replay(ctx, data):
         print(json.dumps(data, indent=1)[:3000])
         return 1
     c = Case.from_description(inp)
+    if "meta_text" in inp:
+        c = ReaderCase(inp["reader_kind"], inp["meta_text"], [Fraction(f) for f in inp["true_full_scale"]],
+                       c.data, c.vps, c.prop, c.M, c.origin)
     obs = impl_observe(c)
     if obs[0] == "raise":
         print("implementation raised:", repr(obs[1]))
     else:
         print("implementation flags:", obs[1].astype(int).tolist())
         print("implementation mute :", [float(v) for v in obs[2]])
-    bad = [] if c.mv_kind in ("badlen", "oddbroadcast") else oracle(c, obs) + metamorphic(c, obs)
+    if c.reader:
+        if c.rv is not None:
+            print("Reader.range_volts[:8]:", [float(v) for v in c.rv[:8]], " true full scale[:8]:",
+                  [float(f) for f in c.true_fs[:8]])
+        bad = oracle_reader(c, obs)
+    else:
+        bad = [] if c.mv_kind in ("badlen", "oddbroadcast") else oracle(c, obs) + metamorphic(c, obs)
     print("property clauses failing on the implementation:", bad)
-    i, o = enc_inp(c), enc_out(c, obs)
+    i, o = (enc_inp_reader(c), enc_out_reader(c, obs)) if c.reader else (enc_inp(c), enc_out(c, obs))
     ids = common.coq_mismatches(PROP, HEADER, [common.flat_cases_term(0, i, o)])
     m = common.Extracted(PROP).run_many([i], nproc=1)[0]
     ns = c.data.shape[1]
-    print("model flags         :", m[2:2 + ns] if m[0] == 1 else "raises")
+    ne = c.n_exact(m)
+    print("model flags         :", m[ne - ns:ne] if m[0] == 1 else "raises")
     if m[0] == 1:
-        print("model mute          :", [v / (1 << i[12]) for v in m[2 + ns:]])
+        print("model mute          :", [v / (1 << i[c.s_index]) for v in m[ne:]])
     print("kernel-evaluated model agrees with implementation:", not ids)
     return 1 if (bad or ids) else 0
